@@ -61,10 +61,11 @@ type pacerMachine struct {
 	bwChanges     int
 	limited       bool
 	sig           []byte
+	reported      map[string]bool // known findings already counted for this history
 }
 
 func newPacerMachine(p PParams) vf.Machine[POp] {
-	m := &pacerMachine{u: vf.U("pacer-model"), bw: p.BW, mds: int64(protocol.InitialPacketSize), now: p.Start}
+	m := &pacerMachine{u: vf.U("pacer-model"), bw: p.BW, mds: int64(protocol.InitialPacketSize), now: p.Start, reported: map[string]bool{}}
 	m.p = congestion.VerifNewPacer(func() congestion.Bandwidth { return congestion.Bandwidth(m.bw) })
 	return m
 }
@@ -77,8 +78,11 @@ func (m *pacerMachine) adjusted() uint64 { return m.bw / 8 * 5 / 4 }
 
 func (m *pacerMachine) tolerated(v *vf.Verdict) bool {
 	if v != nil && vf.IsKnown(v.Sig) {
-		m.u.Report(v, nil)
-		m.u.Class("known:" + v.Sig)
+		if !m.reported[v.Sig] { // count histories, not calls
+			m.reported[v.Sig] = true
+			m.u.Report(v, nil)
+			m.u.Class("known:" + v.Sig)
+		}
 		return true
 	}
 	return false
@@ -133,6 +137,14 @@ func (m *pacerMachine) check(where string) *vf.Verdict {
 		return v
 	}
 	if !ok {
+		return nil
+	}
+	if needTUS && m.adjusted() == 0 {
+		// zero bandwidth: the bucket never refills, so no deadline is "right"; the call must not panic and a
+		// deadline, if given, must not lie before the last send
+		if t != 0 && t < m.lastSend {
+			return vf.Bad(sigTUSBeforeSend, "%s: TimeUntilSend()=%d lies before the last send at %d", where, t, m.lastSend)
+		}
 		return nil
 	}
 	if t == 0 {
